@@ -348,6 +348,54 @@ func gen(tier string, rng *h.Rng, emit0 func(string)) {
 	for _, kk := range []string{"other", "own", "empty", "none", "in2", "inclose"} {
 		emit("conn " + kk)
 	}
+	// histories on the outbound table: DisConnectTo of a connected / never connected / already removed id,
+	// the peer hanging up AFTER DisConnectTo (the id is reported a second time), the end of an old connection
+	// taking the entry of a newer one, double hang-ups, Leave; each ends with a round trip to a real member
+	hon("conns q2")
+	for _, l := range []string{"conns f2.2;x2;h2;q2", "conns x7;q2", "conns f2.2;x2;x2;h2;x2;q2", "conns f2.2;x2;f2.2;o2;h2;q2;q3",
+		"conns f2.3;x2;x3;q2", "conns n2;x2;h2;q2", "conns q2;x2;q3;q2", "conns f2.2;h2;x2;q2;L", "conns f3.3;q2;L;x3;h3"} {
+		emit(l)
+	}
+	for i := 0; i < scale(6, 80); i++ {
+		// scripted connections to members 2 and 3, closed in any order, DisConnectTo of 2, 3 and an unknown id;
+		// a real member is only asked once no scripted connection dialled for it is open (that endpoint never replies)
+		open := map[int]int{}
+		var evs []string
+		for k := 2 + rng.Intn(6); k > 0; k-- {
+			x := 2 + rng.Intn(2)
+			switch rng.Intn(7) {
+			case 0, 1:
+				evs = append(evs, fmt.Sprintf("f%d.%d", x, []int{x, x, x, 0, 1, 5}[rng.Intn(6)]))
+				open[x]++ // an upper bound: a refused connection is closed by the node
+			case 2:
+				evs = append(evs, fmt.Sprintf("x%d", []int{x, x, 7}[rng.Intn(3)]))
+			case 3:
+				evs = append(evs, fmt.Sprintf("h%d", x))
+				if open[x] > 0 {
+					open[x]--
+				}
+			case 4:
+				evs = append(evs, fmt.Sprintf("o%d", x))
+				if open[x] > 0 {
+					open[x]--
+				}
+			case 5:
+				evs = append(evs, fmt.Sprintf("n%d", x))
+			default:
+				evs = append(evs, fmt.Sprintf("x%d", x), fmt.Sprintf("h%d", x))
+				if open[x] > 0 {
+					open[x]--
+				}
+			}
+		}
+		for x := 2; x <= 3; x++ {
+			for ; open[x] > 0; open[x]-- {
+				evs = append(evs, fmt.Sprintf("%s%d", pick(rng, "h", "o"), x))
+			}
+		}
+		evs = append(evs, fmt.Sprintf("q%d", 2+rng.Intn(2)))
+		emit("conns " + strings.Join(evs, ";"))
+	}
 	for _, m := range []string{"nil", "sub", "unsub"} {
 		emit("mdisp " + m)
 	}
